@@ -11,6 +11,7 @@
 package sched
 
 import (
+	"encoding/json"
 	"fmt"
 	"os"
 	"runtime"
@@ -401,6 +402,12 @@ type Explorer struct {
 	seenSig  map[string]bool
 	branch   int
 	OnExec   func(sc *Scenario, choices []int) // e.g. print EXEC line
+	// process recycling (see savedState)
+	MaxExec      int
+	Suspended    bool
+	resume       *savedState
+	resumeLoaded bool
+	done         map[string]bool
 }
 
 func NewExplorer(t *testing.T, bound int) *Explorer {
@@ -511,32 +518,120 @@ func (e *Explorer) judge(sc *Scenario, r execResult, diverged bool) {
 	}
 }
 
-// Explore runs the deviation-bounded DFS for one scenario.
-func (e *Explorer) Explore(sc *Scenario) {
-	e.explore(sc, nil, nil, 0, 0)
+// workItem is one pending node of the DFS: a choice prefix to execute (then defaults) and expand.
+type workItem struct {
+	Prefix []int      `json:"p"`
+	Expect [][]string `json:"-"` // labels of the parent execution along the prefix (divergence check); lost across a process restart
+	Cost   int        `json:"c"`
+	Level  int        `json:"l"`
 }
 
-func (e *Explorer) explore(sc *Scenario, prefix []int, expect [][]string, costSoFar int, level int) {
-	if !e.Deadline.IsZero() && time.Now().After(e.Deadline) {
-		e.Stats.Exhaustive = false
+// savedState lets a fresh process continue the exploration where a recycled one stopped: executions leak parked
+// goroutines (the product's never-ending loops), so a worker that has run many of them is replaced.
+type savedState struct {
+	Done    map[string]bool `json:"done"`
+	Current string          `json:"current"`
+	Stack   []workItem      `json:"stack"`
+	Branch  int             `json:"branch"`
+}
+
+func (e *Explorer) loadResume() {
+	if e.resumeLoaded {
 		return
 	}
-	r, ok := e.runStable(sc, prefix, expect)
+	e.resumeLoaded = true
+	e.done = map[string]bool{}
+	e.MaxExec = 25000
+	if v := os.Getenv("VERIF_MAX_EXEC"); v != "" {
+		fmt.Sscan(v, &e.MaxExec)
+	}
+	if p := os.Getenv("VERIF_RESUME"); p != "" {
+		if b, err := os.ReadFile(p); err == nil {
+			var st savedState
+			if json.Unmarshal(b, &st) == nil {
+				e.resume = &st
+				e.branch = st.Branch
+				for k := range st.Done {
+					e.done[k] = true
+				}
+			}
+		}
+	}
+}
+
+func (e *Explorer) shouldSuspend() bool {
+	if os.Getenv("VERIF_STATE") == "" {
+		return false
+	}
+	if e.MaxExec > 0 && e.Stats.Executions+e.Stats.Retries >= int64(e.MaxExec) {
+		return true
+	}
+	if (e.Stats.Executions+e.Stats.Retries)%500 == 499 {
+		var ms runtime.MemStats
+		runtime.ReadMemStats(&ms)
+		if ms.Sys > 3<<30 {
+			return true
+		}
+	}
+	return false
+}
+
+func (e *Explorer) saveState(current string, stack []workItem) {
+	st := savedState{Done: e.done, Current: current, Stack: stack, Branch: e.branch}
+	b, _ := json.Marshal(st)
+	_ = os.WriteFile(os.Getenv("VERIF_STATE"), b, 0o644)
+}
+
+// Explore runs the deviation-bounded DFS for one scenario (explicit stack, same order as the recursive formulation).
+func (e *Explorer) Explore(sc *Scenario) {
+	e.loadResume()
+	if e.Suspended || e.done[sc.Name] {
+		return
+	}
+	stack := []workItem{{}}
+	if e.resume != nil && e.resume.Current == sc.Name {
+		stack = e.resume.Stack
+		e.resume.Current = ""
+	}
+	for len(stack) > 0 {
+		if !e.Deadline.IsZero() && time.Now().After(e.Deadline) {
+			e.Stats.Exhaustive = false
+			return
+		}
+		if e.shouldSuspend() {
+			e.saveState(sc.Name, stack)
+			e.Suspended = true
+			return
+		}
+		it := stack[len(stack)-1]
+		stack = stack[:len(stack)-1]
+		children := e.expand(sc, it)
+		for i := len(children) - 1; i >= 0; i-- {
+			stack = append(stack, children[i])
+		}
+	}
+	e.done[sc.Name] = true
+}
+
+// expand executes one node and returns its children in exploration order.
+func (e *Explorer) expand(sc *Scenario, it workItem) []workItem {
+	r, ok := e.runStable(sc, it.Prefix, it.Expect)
 	if !ok {
 		e.Stats.Exhaustive = false // a schedule we could not reproduce (uncontrolled nondeterminism); its subtree is not expanded
-		return
+		return nil
 	}
 	x := r.ctl
 	e.judge(sc, r, false)
 	labels := traceLabels(x.Trace)
-	cost := costSoFar
-	for i := len(prefix); i < len(x.Trace); i++ {
+	cost := it.Cost
+	var out []workItem
+	for i := len(it.Prefix); i < len(x.Trace); i++ {
 		d := x.Trace[i]
 		for alt := 1; alt < len(d.Enabled); alt++ {
 			if cost+d.Costs[alt] > e.Bound {
 				continue
 			}
-			if level == 0 && e.NShard > 1 {
+			if it.Level == 0 && e.NShard > 1 {
 				// first-level subtrees are dealt to the shards
 				e.branch++
 				if e.branch%e.NShard != e.Shard {
@@ -544,10 +639,11 @@ func (e *Explorer) explore(sc *Scenario, prefix []int, expect [][]string, costSo
 				}
 			}
 			np := append(append([]int{}, x.Choices[:i]...), alt)
-			e.explore(sc, np, labels[:i+1:i+1], cost+d.Costs[alt], level+1)
+			out = append(out, workItem{Prefix: np, Expect: labels[: i+1 : i+1], Cost: cost + d.Costs[alt], Level: it.Level + 1})
 		}
 		cost += d.Costs[d.Chosen]
 	}
+	return out
 }
 
 func traceLabels(tr []Decision) [][]string {
@@ -585,9 +681,39 @@ func StartWatchdog(limit time.Duration) {
 			if cpu > 0.5*time.Since(lastChange).Seconds() {
 				kind = "busy-spin"
 			}
-			buf := make([]byte, 1<<20)
+			buf := make([]byte, 256<<20)
 			n := runtime.Stack(buf, true)
-			fmt.Printf("VERIF-STALL kind=%s cpu=%.1fs exec=%v\n%s\n", kind, cpu, currentExec.Load(), buf[:n])
+			// print the goroutines of the youngest bubble first (the execution that stalls), then a bounded part of the rest
+			all := strings.Split(string(buf[:n]), "\n\n")
+			maxB := -1
+			bubbleOf := func(g string) int {
+				i := strings.Index(g, "synctest bubble ")
+				if i < 0 {
+					return -1
+				}
+				b := 0
+				for _, c := range g[i+len("synctest bubble "):] {
+					if c < '0' || c > '9' {
+						break
+					}
+					b = b*10 + int(c-'0')
+				}
+				return b
+			}
+			for _, g := range all {
+				if b := bubbleOf(g); b > maxB {
+					maxB = b
+				}
+			}
+			var cur, rest []string
+			for _, g := range all {
+				if b := bubbleOf(g); b == maxB || b == -1 {
+					cur = append(cur, g)
+				} else if len(rest) < 200 {
+					rest = append(rest, g)
+				}
+			}
+			fmt.Printf("VERIF-STALL kind=%s cpu=%.1fs exec=%v goroutines=%d youngest-bubble=%d\n%s\n\n-- older bubbles (first 200) --\n%s\n", kind, cpu, currentExec.Load(), len(all), maxB, strings.Join(cur, "\n\n"), strings.Join(rest, "\n\n"))
 			os.Exit(4)
 		}
 	}()
